@@ -91,6 +91,8 @@ func famHist(out string) {
 		case 8:
 			p.Steps, p.PBadTx, p.PCorrupt, p.Scenario = 14, 0, 0, "corruptsweep"
 		}
+		// one history in twelve (quick) is replayed on the real LMDB back-end
+		p.LMDB = i%12 == 5 || (hutil.Tier() == "thorough" && i%20 == 7)
 		h := w.genHistory(p)
 		class := fmt.Sprintf("hist/fork=%d/bad=%d", p.PFork, p.PBadTx)
 		for k, v := range h.Stats {
